@@ -911,6 +911,9 @@ func (g *c15Gen) schemas() (ss ast.Schemas) {
 			if r.chance(25) {
 				t = ast.NewScalar(ast.KindInt64, ast.Value(int64(3)))
 			}
+			if r.chance(10) {
+				t = ast.NewScalar(ast.KindString, ast.Value(int64(1))) // constant of another type than its kind
+			}
 			s.AddObject(ast.NewObject(s.Package, name, t))
 		}
 		if r.chance(25) {
